@@ -20,19 +20,20 @@ import (
 )
 
 type Tape struct {
-	ID      string   `json:"id"`
-	Harness string   `json:"harness"`
-	Params  []int    `json:"params"`
-	Nondet  []uint64 `json:"nondet"`
-	Chooses []int64  `json:"chooses"`
-	Expect  string   `json:"expect"`
-	Sched   bool     `json:"sched"`
-	Env     []int64  `json:"env,omitempty"`  // order of environment events to stage natively (only for library-priority counterexamples)
+	ID      string    `json:"id"`
+	Harness string    `json:"harness"`
+	Params  []int     `json:"params"`
+	Nondet  []uint64  `json:"nondet"`
+	Chooses []int64   `json:"chooses"`
+	Expect  string    `json:"expect"`
+	Sched   bool      `json:"sched"`
+	Env     []int64   `json:"env,omitempty"`    // order of environment events to stage natively (only for library-priority counterexamples)
 	STrace  []TraceEv `json:"strace,omitempty"` // full schedule trace (library-level visible operations + environment events) to stage natively
-	Race    bool     `json:"race,omitempty"` // replay under the race detector
+	Race    bool      `json:"race,omitempty"`   // replay under the race detector
 
 	obs     []ObsVal
 	failure *Failure
+	bound   bool // probe of a path that ended at its step / allocation bound
 }
 
 type NativeResult struct {
@@ -247,34 +248,61 @@ func runNative(genDir, hdir string, tapes []*Tape) (map[string]*NativeResult, er
 				swg.Add(1)
 				go func(k int, sh []*Tape) {
 					defer swg.Done()
-					tf := filepath.Join(genDir, fmt.Sprintf("tapes_%s_%d.json", dir, k))
-					d, _ := json.Marshal(sh)
-					os.WriteFile(tf, d, 0o644)
-					run := exec.Command(bin, "-test.run", "^TestVHReplay$", "-test.timeout", "900s")
-					run.Dir = filepath.Join(repoDir)
-					run.Env = append(goEnv(), "VH_TAPES="+tf, "TZ="+replayTZ())
-					var stdout bytes.Buffer
-					run.Stdout = &stdout
-					run.Stderr = &stdout
-					done := make(chan error, 1)
-					go func() { done <- run.Run() }()
-					select {
-					case <-done:
-					case <-time.After(960 * time.Second):
-						run.Process.Kill()
-					}
-					sc := bufio.NewScanner(&stdout)
-					sc.Buffer(make([]byte, 1<<20), 1<<26)
-					for sc.Scan() {
-						line := sc.Text()
-						if strings.HasPrefix(line, "VHRESULT ") {
-							var r NativeResult
-							if err := json.Unmarshal([]byte(line[9:]), &r); err == nil {
-								mu.Lock()
-								results[r.ID] = &r
-								mu.Unlock()
+					// a panic in a goroutine of the library cannot be recovered by the replay harness: it
+					// takes the whole process down. The tape that was running is the first one without a
+					// result; it is recorded as panicked and the rest of the shard is run again.
+					pending := sh
+					for round := 0; len(pending) > 0 && round <= len(sh); round++ {
+						tf := filepath.Join(genDir, fmt.Sprintf("tapes_%s_%d_%d.json", dir, k, round))
+						d, _ := json.Marshal(pending)
+						os.WriteFile(tf, d, 0o644)
+						run := exec.Command(bin, "-test.run", "^TestVHReplay$", "-test.timeout", "900s")
+						run.Dir = filepath.Join(repoDir)
+						run.Env = append(goEnv(), "VH_TAPES="+tf, "TZ="+replayTZ())
+						var stdout bytes.Buffer
+						run.Stdout = &stdout
+						run.Stderr = &stdout
+						done := make(chan error, 1)
+						go func() { done <- run.Run() }()
+						timedOut := false
+						select {
+						case <-done:
+						case <-time.After(960 * time.Second):
+							run.Process.Kill()
+							timedOut = true
+						}
+						crashLine := ""
+						sc := bufio.NewScanner(&stdout)
+						sc.Buffer(make([]byte, 1<<20), 1<<26)
+						for sc.Scan() {
+							line := sc.Text()
+							if strings.HasPrefix(line, "VHRESULT ") {
+								var r NativeResult
+								if err := json.Unmarshal([]byte(line[9:]), &r); err == nil {
+									mu.Lock()
+									results[r.ID] = &r
+									mu.Unlock()
+								}
+							} else if crashLine == "" && (strings.HasPrefix(line, "panic: ") || strings.HasPrefix(line, "fatal error: ")) && !strings.Contains(line, "test timed out") {
+								crashLine = line
 							}
 						}
+						first := -1
+						mu.Lock()
+						for i, t := range pending {
+							if results[t.ID] == nil {
+								first = i
+								break
+							}
+						}
+						if first >= 0 && crashLine != "" && !timedOut {
+							results[pending[first].ID] = &NativeResult{ID: pending[first].ID, Panic: "process crashed: " + crashLine}
+						}
+						mu.Unlock()
+						if first < 0 || crashLine == "" || timedOut {
+							break
+						}
+						pending = pending[first+1:]
 					}
 				}(k, sh)
 			}
